@@ -307,7 +307,7 @@ theorem evalStep_mono (env : Spec.Env) {srec srec' : Spec.Rec} (h : SRecLe srec 
         Spec.kwAllOf (srec (scope0 ++ [s])) n j, Spec.kwAnyOf (srec (scope0 ++ [s])) n j,
         Spec.kwOneOf (srec (scope0 ++ [s])) n j, Spec.kwNot (srec (scope0 ++ [s])) n j,
         Spec.kwIf (srec (scope0 ++ [s])) n j, Spec.kwItems env (srec (scope0 ++ [s])) n j,
-        Spec.kwContains (srec (scope0 ++ [s])) n j, Spec.kwProps env (srec (scope0 ++ [s])) n j,
+        Spec.kwContains (srec (scope0 ++ [s])) (Spec.vocab env.draft n) j, Spec.kwProps env (srec (scope0 ++ [s])) n j,
         Spec.kwPropertyNames (srec (scope0 ++ [s])) n j,
         Spec.kwDependentSchemas env (srec (scope0 ++ [s])) n j] with
       | none => rw [evalStep_undefined env srec scope0 s j n hn hnd7 hseq] at hr; cases hr
@@ -329,10 +329,10 @@ theorem evalStep_mono (env : Spec.Env) {srec srec' : Spec.Rec} (h : SRecLe srec 
           (kwRef_mono hs env s n j r1 h1) (kwDynamicRef_mono hs env _ s n j r2 h2)
           (kwAllOf_mono hs n j r3 h3) (kwAnyOf_mono hs n j r4 h4) (kwOneOf_mono hs n j r5 h5)
           (kwNot_mono hs n j r6 h6) (kwIf_mono hs n j r7 h7) (kwItems_mono hs env n j r8 h8)
-          (kwContains_mono hs n j r9 h9) (kwProps_mono hs env n j r10 h10)
+          (kwContains_mono hs _ j r9 h9) (kwProps_mono hs env n j r10 h10)
           (kwPropertyNames_mono hs n j r11 h11) (kwDependentSchemas_mono hs env n j r12 h12)]
-        exact specTail_mono _ _ (fun ev => kwUnevaluatedItems_mono hs n j ev)
-          (fun ev => kwUnevaluatedProps_mono hs n j ev) r hr
+        exact specTail_mono _ _ (fun ev => kwUnevaluatedItems_mono hs _ j ev)
+          (fun ev => kwUnevaluatedProps_mono hs _ j ev) r hr
 
 theorem evalFuel_mono (env : Spec.Env) : ∀ n, SRecLe (Spec.evalFuel env n) (Spec.evalFuel env (n + 1))
   | 0 => fun _ _ _ r hr => by simp [Spec.evalFuel] at hr
